@@ -6,7 +6,7 @@ import obs
 ID = "C15"
 ENV_RERUN = 40          # cases repeated from a cargo build-script environment (lib/runner.py with_build_env)
 TABLES = ["scalar"]      # leaf tables compared exhaustively through the hooks (coq/Check/Tables.v)
-REQUIRES = ["Agree", "C15Spec", "Truth"]
+REQUIRES = ["ObsCheck", "Agree", "C15Spec", "Truth"]
 THEOREM_REQUIRES = ["C15"]
 THEOREMS = ["C15_holds_bool"]
 PROOF_FILES = ["Proofs/GenInv.v", "Proofs/Tactics.v", "Proofs/C15Proof.v", "Properties/C15.v"]
@@ -38,12 +38,30 @@ def run_cases(plain, cases_, workdir, tag):
     return obs.attach(plain, cases_, workdir, tag, lambda c: True, 40 if "search" not in tag else 0)
 
 
+PRIM_OF = {"i32": "PI32", "u32": "PU32", "f32": "PF32", "f64": "PF64", "i64": "PI64", "u64": "PU64", "bool": "PBool",
+           "i8": "PI8", "u8": "PU8", "i16": "PI16", "u16": "PU16"}
+
+
+def coq_obs_clause(r, real):
+    """Coq-evaluated: the constants the compiled module exports (declared type, evaluated value / bit pattern) = the
+    constants of the extracted output"""
+    items = []
+    for name, c_ in sorted((r["obs"].get("consts") or {}).items()):
+        pt = PRIM_OF.get(c_.get("type_name"))
+        if pt is None:
+            return "false"
+        items.append('(%s, %s, (%d)%%Z)' % (sink._cs(name), pt, int(str(c_.get("bits")).strip())))
+    return "obs_consts_ok %s [%s]" % (real, "; ".join(items))
+
+
 def verdict_expr(c, r, ir, real):
     ob = "true"
     if "obs" in r and r.get("result") == "ok":
         ok, why = obs.check_c15(c["truth"], r) if obs.usable(r) else (False, "module did not build / run on the shim: %s" % str(r.get("obs"))[:300])
         c["note"] = why
         ob = "true" if ok else "false"
+        if obs.usable(r):
+            ob += " && " + coq_obs_clause(r, real)
     return _verdict(c, r, ir, real).replace("OBS", ob)
 
 
